@@ -60,15 +60,21 @@ impl QplibFile {
         let buf = io::BufReader::new(reader);
         // Stop at the first I/O error and report it, rather than taking it for the end of the file.
         let mut io_error = None;
+        let mut lines_read = 0;
         let parsed = Self::from_lines(buf.lines().map_while(|line| match line {
-            Ok(line) => Some(line),
+            Ok(line) => {
+                lines_read += 1;
+                Some(line)
+            }
             Err(e) => {
                 io_error = Some(e);
                 None
             }
         }));
         match io_error {
-            Some(e) => Err(e).context("Failed to read QPLIB data"),
+            // like every other error of this parser, say at which line of the input it happened
+            Some(e) => Err(e)
+                .with_context(|| format!("Failed to read QPLIB data (at line {})", lines_read + 1)),
             None => parsed,
         }
     }
